@@ -62,3 +62,41 @@ pub open spec fn node_ok(n: Node, index: VIndex, packs: Set<PackId>) -> bool {
         _ => true,
     }
 }
+
+// ---- check_trees: the walk over all trees of the snapshots ----
+// TreeStreamerOnce (threads loading every tree reachable from the snapshot roots once): the sequence of its items;
+// `oks[i]` = the i-th item is a tree (not a load error)
+pub struct VTreeStream { pub oks: Ghost<Seq<bool>>, pub pos: Ghost<int> }
+pub uninterp spec fn TREE_ITEMS_OK(roots: TreeIdsW) -> Seq<bool>;
+pub struct TreeIdsW { pub _opaque: u64 }
+pub struct ProgressT { pub _opaque: u64 }
+pub struct VBeT { pub _opaque: u64 }
+impl VTreeStream {
+    #[verifier::external_body]
+    pub fn vnew(be: &VBeT, index: &VIndex, snap_trees: TreeIdsW, p: ProgressT) -> (r: RusticResult<VTreeStream>)
+        ensures r matches Ok(s) ==> s.pos@ == 0 && s.oks@ == TREE_ITEMS_OK(snap_trees),
+    { unimplemented!() }
+    // Iterator::next
+    #[verifier::external_body]
+    pub fn next(&mut self) -> (r: Option<RusticResult<(PathBufR, Tree)>>)
+        requires 0 <= old(self).pos@ <= old(self).oks@.len(),
+        ensures
+            final(self).oks@ == old(self).oks@,
+            old(self).pos@ < old(self).oks@.len() ==> final(self).pos@ == old(self).pos@ + 1 && (r matches Some(x) && (x is Ok) == old(self).oks@[old(self).pos@]),
+            old(self).pos@ >= old(self).oks@.len() ==> r is None && final(self).pos@ == old(self).pos@,
+    { unimplemented!() }
+}
+// Option<Result<T, E>>::transpose (definition)
+pub fn vtranspose<T>(o: Option<RusticResult<T>>) -> (r: RusticResult<Option<T>>)
+    ensures r == (match o { Some(Ok(x)) => Ok::<Option<T>, Box<RusticError>>(Some(x)), Some(Err(e)) => Err::<Option<T>, Box<RusticError>>(e), None => Ok::<Option<T>, Box<RusticError>>(None) }),
+{ match o { Some(Ok(x)) => Ok(Some(x)), Some(Err(e)) => Err(e), None => Ok(None) } }
+// the per-tree node loop (unit check_tree_nodes), seen as one call
+#[verifier::external_body]
+pub fn vcheck_tree_nodes(tree: Tree, path: PathBufR, index: &VIndex, packs: &mut VSet<PackId>, collector: &CheckResultsCollector) { unimplemented!() }
+pub struct VRepoT { pub _opaque: u64 }
+impl VRepoT {
+    #[verifier::external_body]
+    pub fn progress_counter(&self, s: &str) -> ProgressT { unimplemented!() }
+}
+#[verifier::external_body]
+pub fn vset_new() -> (r: VSet<PackId>) { unimplemented!() }
